@@ -19,7 +19,7 @@ RULE = ("each case: up to 14 operations over 3 immutable and 2 mutable storage i
 LEVEL_TEXT = "Differential search: the direct path is the reference for the HTTP path."
 ASSUMPTIONS = ["TLS, NURLs and the real network are not involved (the HTTP resource tree and the client marshalling are exercised in memory)",
                "zero-length reads/writes are not generated", "collections_extended.RangeMap is provided by the shim in /verif/shims"]
-REQUIRED_CLASSES = ["chunked-upload", "out-of-order-chunks", "read-past-end", "failing-testv", "readv-absent-share", "readv-all", "add-lease-immutable", "add-lease-mutable", "abort", "realloc-existing"]
+REQUIRED_CLASSES = ["testv-matching", "testv-size-ne-specimen", "testv-must-not-exist", "chunked-upload", "out-of-order-chunks", "read-past-end", "failing-testv", "readv-absent-share", "readv-all", "add-lease-immutable", "add-lease-mutable", "abort", "realloc-existing"]
 BUDGET = {"quick": 900, "thorough": 7200}
 SIZES = [1, 10, 33, 100]
 
@@ -208,7 +208,22 @@ def run_case(case, ctx):
             _, si_n, we, tws, rv = o
             tw = {}
             for (s_, tests, writes_, newlen) in tws:
-                tw[s_] = ([(off, ln, pbytes(spec, ln)) for (off, ln, spec) in tests], [(off, pbytes(off + ln, ln)) for (off, ln) in writes_], newlen)
+                tv = []
+                for (off, ln, spec) in tests:
+                    cur = D.ss.slot_readv(sis[si_n], [s_], [(off, ln)]).get(s_, [b""])[0]
+                    if spec == 0:
+                        specimen = pbytes(spec + off, ln)            # arbitrary bytes of the tested size
+                    elif spec == 1:
+                        specimen = cur                               # what is there now: the test passes
+                        classes.add("testv-matching")
+                    elif spec == 2:
+                        specimen = cur[:max(0, len(cur) - 1)]        # a proper prefix of what is there: size != len(specimen)
+                        classes.add("testv-size-ne-specimen")
+                    else:
+                        off, ln, specimen = 0, 1, b""                # the 'share must not exist yet' idiom
+                        classes.add("testv-must-not-exist")
+                    tv.append((off, ln, specimen))
+                tw[s_] = (tv, [(off, pbytes(off + ln, ln)) for (off, ln) in writes_], newlen)
             r = both("rtw(si%d,we%d,%r)" % (si_n, we, [(s_, len(t), len(w_), nl) for s_, (t, w_, nl) in tw.items()]),
                      lambda name, S: S.istorage.slot_testv_and_readv_and_writev(sis[si_n], (enablers[we], secrets[0][0], secrets[0][1]), tw, [tuple(x) for x in rv]),
                      normalise=lambda r: (r[0],) if r[0] != "ok" else ("ok", (bool(r[1][0]), {k: [bytes(x) for x in v] for k, v in r[1][1].items()})))
